@@ -154,6 +154,8 @@ class FakeSocket(object):
             if st.server is not None:
                 st.server.kill()
             w.fired('sendall_' + kind)
+            w.fault_marks.append(('sendall', st.index, k, st.delivered_total,
+                                  len(st.out_bytes), w.next_seq()))
             if kind == 'epipe':
                 raise OSError(errno.EPIPE, 'Broken pipe')
             if kind == 'reset':
@@ -638,6 +640,7 @@ class World(object):
         self.env = dict(scen.get('environ') or {})
         self.pre_write = None       # ThreadSim hook
         self.exit_waits = []
+        self.fault_marks = []
 
     # -- bookkeeping
     def next_seq(self):
